@@ -122,7 +122,7 @@ def sym_options(H, m, pfx="o."):
             m.option_values[name] = H.int(pfx + name, 0, 2**o.size - 1)
 
 
-def sym_midi_maps(H, m, pfx="mm.", split=None):
+def sym_midi_maps(H, m, pfx="mm.", split=None, fixed=None):
     """channel and message parameter of every attached controller's MIDI map symbolic at once;
     message type / slope of the controller named `split` case-split over their members."""
     for name, ctl in type(m).controllers.items():
@@ -134,6 +134,8 @@ def sym_midi_maps(H, m, pfx="mm.", split=None):
         if split == name:
             mm.message_type = H.enum(f"{pfx}{name}.type", MidiMessageType)
             mm.slope = H.enum(f"{pfx}{name}.slope", Slope)
+        if fixed and name in fixed:
+            mm.message_type, mm.slope = fixed[name]
 
 
 def sym_note(H, n, pfx):
